@@ -350,7 +350,7 @@ def run(ctx):
             k = next(i for i, c in enumerate(cs) if c['kind'] == 'enum' and c['enum'][1] == 4 and c['modes'] is QUOTED_MODES)
             ln = case_lines(cs[k])
             for j in (37, 101, 180):
-                ctx.sample({'dlm': cs[k]['dlm'], 'line': ln[j], 'modes': cs[k]['modes'], 'model': exp[k][j], 'implementation': got[k][j]})
+                ctx.sample_safe(lambda: {'dlm': cs[k]['dlm'], 'line': ln[j], 'modes': cs[k]['modes'], 'model': exp[k][j], 'implementation': got[k][j]})
 
 
 def replay(ctx, case):
